@@ -705,7 +705,7 @@ func runC12(c *Ctx) {
 	if fn := c.P.Method(dhcpRel, "Handler", "loadByteArray"); fn != nil {
 		core.EachInstr(fn, func(i ssa.Instruction) {
 			st, ok := i.(*ssa.Store)
-			if !ok || !strings.HasSuffix(norm(st.Addr), "local(v).subnet") {
+			if !ok || !leaseLocalField(norm(st.Addr), "subnet") {
 				return
 			}
 			gs := guardsOf(i)
